@@ -1175,6 +1175,17 @@ func (env *SpecEnv) evalCall(x *ECall) (sval, error) {
 			}
 			env.st, env.inOld = saved, savedOld
 			return v, err
+		case "called":
+			// called(anchor): the execution came through a call of a function named like the anchor
+			// (path-sensitive; for exit clauses; call sites outside loops only)
+			if len(x.Args) != 1 {
+				return sval{}, fmt.Errorf("called takes one argument (a callee name as in 'assert at call')")
+			}
+			c, err := f.calledCond(x.Args[0].exprString())
+			if err != nil {
+				return sval{}, err
+			}
+			return sval{t: c, sort: "Bool"}, nil
 		case "held":
 			// held(x.mu): the current goroutine holds mutex field mu of object x
 			if len(x.Args) != 1 {
